@@ -60,8 +60,11 @@ def firstBit (v : Nat) : Nat → Nat → Option Nat
   | _, 0 => none
   | j, n+1 => if v.testBit j then some j else firstBit v (j + 1) n
 
+/-- a displacement as a 64-bit two's-complement addend -/
+def dispN (d : Int) : Nat := if d < 0 then W64 - (-d).toNat else d.toNat
+
 def addr (s : St) (disp : Int) (base : Reg) (idx : Option Reg) : Nat :=
-  (((s.r base : Int) + (match idx with | some i => (s.r i : Int) | none => 0) + disp) % (W64 : Int)).toNat
+  (s.r base + (match idx with | some i => s.r i | none => 0) + dispN disp) % W64
 
 /-- one instruction; `none` = `RET`, `some (st, jump target)` otherwise -/
 def step (s : St) : Instr → Option (St × Option String)
